@@ -286,7 +286,11 @@ impl Obligations {
         let floor: Vec<usize> = self
             .acks
             .iter()
-            .filter(|(pos, _)| *pos < cut)
+            // `<=`: an acknowledgement recorded at log length n precedes every event from index n on, so
+            // a crash cut at n (the epoch ending with event n, or the end of the log: a clean close is
+            // the last thing in its log) is a crash after the acknowledgement. SEQ positions are the
+            // indices of mark events, which never end an epoch, so nothing changes there.
+            .filter(|(pos, _)| *pos <= cut)
             .next_back()
             .map(|(_, f)| f.clone())
             .unwrap_or_else(|| vec![0; self.hists.len()]);
